@@ -45,11 +45,11 @@ STYLES = {
 KINDS = {"del": DelegatesTo, "proto": PrototypedFrom}
 
 
-def build_hop1(kind, style):
+def build_hop1(kind, style, class_prefix="d_"):
     name, prefix, tf = STYLES[style]
-    ns = {"__prefix__": "d_", "d": Instance(HasTraits), name: KINDS[kind]("d", prefix=prefix)}
+    ns = {"__prefix__": class_prefix, "d": Instance(HasTraits), name: KINDS[kind]("d", prefix=prefix)}
     ns["__repr__"] = lambda self: "Q#%s" % self.__dict__.get("_n", "?")
-    return type("Q", (HasTraits,), ns), name, tf("d_")
+    return type("Q", (HasTraits,), ns), name, tf(class_prefix)
 
 
 def build_hop2(kind, style2, name1):
@@ -69,8 +69,10 @@ def build_hop2(kind, style2, name1):
 
 
 OP = st.one_of(
-    st.tuples(st.just("set_via"), st.sampled_from([5, 6, 7, 8, "bad", None, 1.5])),
-    st.tuples(st.just("set_via"), st.sampled_from([5, 6, 7, 8, "bad", None, 1.5])),
+    st.tuples(st.just("set_via"), st.sampled_from([5, 6, 7, 8, 10, 11, "bad", None, 1.5])),
+    st.tuples(st.just("set_via"), st.sampled_from([5, 6, 7, 8, 10, 11, "bad", None, 1.5])),
+    # assign exactly the (identical) object the target currently holds: the deferring attribute must still take it
+    st.tuples(st.just("set_via_current")),
     st.tuples(st.just("set_via_mid"), st.sampled_from([15, 16, "bad"])),
     st.tuples(st.just("set_target"), st.integers(0, 2), st.integers(10, 14)),
     st.tuples(st.just("set_target"), st.integers(0, 2), st.integers(10, 14)),
@@ -84,6 +86,7 @@ OP = st.one_of(
 def strategy(tier):
     return st.fixed_dictionaries({
         "kind1": st.sampled_from(["del", "proto"]),
+        "class_prefix": st.sampled_from(["d_", "d_", "q_", "pre_"]),
         "style1": st.sampled_from(["same", "explicit", "pre", "star"]),
         # second hop: same deferral kind as the first (mixed-kind chains: the statement does not say where a write lands)
         "chain": st.sampled_from([None, None, "same", "explicit"]),
@@ -93,7 +96,14 @@ def strategy(tier):
 
 def run(case, ctx):
     kind1, style1 = case["kind1"], case["style1"]
-    Q, name1, target = build_hop1(kind1, style1)
+    if style1 == "star":
+        # a second class using the same attribute and delegate names with ANOTHER __prefix__, used first: whatever is
+        # remembered per (name, pattern) must not leak into the class under test
+        Decoy, dname, dtarget = build_hop1(kind1, style1, class_prefix="q_" if case.get("class_prefix", "d_") == "d_" else "d_")
+        dq = Decoy(d=D())
+        dq.on_trait_change(lambda: None, dname)
+        setattr(dq.d, dtarget, 9)
+    Q, name1, target = build_hop1(kind1, style1, case.get("class_prefix", "d_"))
     ds = [D(), D(), D()]
     for i, d in enumerate(ds):
         d.__dict__["_n"] = i
@@ -150,6 +160,10 @@ def run(case, ctx):
         k = op[0]
         before = snap()
         what = "kind1=%s style1=%s chain=%s op=%r" % (kind1, style1, chain, op)
+        if k == "set_via_current":
+            op = ["set_via", read_front()]
+            k = "set_via"
+            ctx.label("assign-current-value")
         if k == "set_via":
             v = op[1]
             try:
